@@ -13,7 +13,7 @@ fn rules() -> Vec<&'static str> {
     vec![
         "||ads.example.com^", "/banner/*/img^", "/adframe.", "|https://start.example/x", "/end.gif|", "@@||good.example.com^$script", "@@/banner/ok/*",
         "||i.example^$important", "@@||i.example/x^", "||tp.example^$third-party", "||fp.example^$first-party,image", "||d.example^$domain=a.com|~sub.a.com",
-        "*$script,domain=foo.com|bar.com", "||nd.example^$domain=~b.com", "||t.example^$tag=alpha", "@@||t.example/ok^$tag=beta", "||mc.example/Path$match-case",
+        "*$script,domain=foo.com|bar.com", "||nd.example^$domain=~b.com", "||t.example^$tag=alpha", "@@||t.example/ok^$tag=beta", "/tagfuse/a$tag=alpha", "/tagfuse/b$tag=alpha", "/tagfuse/c$tag=alpha", "||mc.example/Path$match-case",
         "||r.example^$redirect=noop.js", "||rr.example^$redirect-rule=noop.js:10", "||rr.example^$redirect-rule=blank.txt:5", "@@||rr.example/no^$redirect-rule=noop.js:10",
         "||c.example^$csp=script-src 'none'", "||c.example^$csp=worker-src 'none'", "@@||c.example/free^$csp=worker-src 'none'", "@@||c.example/all^$csp",
         "/re[0-9]+x/", "||gh.example^$generichide", "@@||gh.example^$generichide", "-bad-$badfilter", "-bad-", "||ws.example^$websocket",
@@ -36,7 +36,7 @@ fn observe(e: &Engine) -> Vec<String> {
     let mut out = vec![];
     for u in ["https://ads.example.com/a.js", "https://x.test/banner/1/img/", "https://x.test/banner/ok/img/", "https://x.test/adframe.html", "https://start.example/x1", "https://x.test/start.example/x",
               "https://x.test/end.gif", "https://x.test/end.gif?1", "https://good.example.com/a.js", "https://i.example/x/", "https://i.example/y", "https://tp.example/a", "https://fp.example/a.png",
-              "https://d.example/a", "https://nd.example/a", "https://t.example/a", "https://t.example/ok/", "https://mc.example/Path", "https://mc.example/path", "https://r.example/a.js",
+              "https://d.example/a", "https://nd.example/a", "https://t.example/a", "https://t.example/ok/", "https://x.test/tagfuse/a", "https://x.test/tagfuse/c", "https://mc.example/Path", "https://mc.example/path", "https://r.example/a.js",
               "https://rr.example/a.js", "https://rr.example/no/a.js", "https://c.example/", "https://c.example/free/", "https://c.example/all/", "https://x.test/re12x", "https://x.test/-bad-/",
               "wss://ws.example/s", "https://gh.example/"] {
         for (s, t) in [("https://a.com/", "script"), ("https://sub.a.com/", "image"), ("https://foo.com/", "script"), ("https://b.com/", "document"), ("https://fp.example/", "image"), ("", "websocket")] {
